@@ -383,10 +383,10 @@ func TestVerif_C32(t *testing.T) {
 
 	r.Require("scripted_reset_final_sizes_checked", 500)
 	r.Require("scripted_contradictions_of_fin_on_retransmitted_data_rejected", 200)
-	r.Require("reset_stream_first_sent", 30)
+	r.Require("reset_stream_first_sent", 15)
 	r.Require("reset_stream_retransmitted", 1)
 	r.Require("stop_sending_processed", 10)
 	r.Require("reset_readers_checked", 8)
 	r.Require("scripted_contradictions_rejected", 100)
-	r.Require("scripted_reset_reads_checked", 30)
+	r.Require("scripted_reset_reads_checked", 12)
 }
